@@ -281,8 +281,13 @@ static void GC_Recurse(struct GC* gc, var ptr);
 
 static void GC_Mark_And_Recurse(void* _gc, void* ptr) {
   struct GC* gc = _gc;
-  GC_Mark_Item(gc, ptr);
-  GC_Recurse(gc, ptr);
+  /* Registered objects are marked (and traced) once. Only objects embedded
+  ** in their container, which have no entry of their own, are scanned here */
+  if (GC_Mem_Ptr(gc, ptr)) {
+    GC_Mark_Item(gc, ptr);
+  } else {
+    GC_Recurse(gc, ptr);
+  }
 }
 
 static void GC_Recurse(struct GC* gc, var ptr) {
